@@ -173,3 +173,42 @@ Theorem c05_source_dynamic_setmap_is_model : forall pnum jcol num m nextlu nextu
     end.
 Proof. exact source_dynamic_setmap_is_model. Qed.
 Print Assumptions c05_source_dynamic_setmap_is_model.
+
+From SLU Require PresetMapGen SchedInitTie PresetMapTie.
+(* ?PresetMap (SRC/p[dscz]memory.c), RE-TRANSLATED from the current source on every run (PresetMapGen.v, tools/gen_trans_pm.py): the
+   routine that lays out the storage of the L supernodes computes exactly the model's image preset_map (static scheme:
+   getenv("SuperLU_DYNAMIC_SNODE_STORE") == NULL), for every input that satisfies the stated hypotheses (see PresetMapTie.v);
+   the s / c / z twins are the same Gallina term as the d routine *)
+Theorem c05_source_presetmap_is_model : forall n colbeg colend rowind rfcol rsize rlx colcnt sb nextlu maxsuper junk k0 fuel,
+  0 <= n -> 1 <= maxsuper -> PresetMapTie.sb_ok n sb -> PresetMapTie.rows_ok n colbeg colend rowind ->
+  SchedInitTie.rlx_at rfcol rsize n 1 rlx -> PresetMapTie.rlx_ok n rlx -> (Z.to_nat n < fuel)%nat ->
+  PresetMapGen.gen_dPresetMap n colbeg colend rowind rfcol rsize colcnt sb nextlu maxsuper C2GalLib.pnull junk k0 fuel =
+  Some (fst (preset_map n colbeg colend rowind rlx colcnt sb maxsuper), nextlu,
+        snd (preset_map n colbeg colend rowind rlx colcnt sb maxsuper), Consts.c_NO,
+        snd (preset_loop (Z.to_nat n + 1) n colbeg colend rowind rlx colcnt (split_super n sb maxsuper) 0 0
+               (repeat 0 (Z.to_nat (n + 1))))).
+Proof. exact PresetMapTie.presetmap_tie_static. Qed.
+Print Assumptions c05_source_presetmap_is_model.
+
+(* the same for the dynamic scheme (the environment variable is set): map_in_sup and Glu->nextlu are preset_map_dyn *)
+Theorem c05_source_presetmap_dyn_is_model : forall n colbeg colend rowind rfcol rsize rlx colcnt sb nextlu maxsuper off junk k0 fuel,
+  0 <= n -> 1 <= maxsuper -> PresetMapTie.sb_ok n sb -> PresetMapTie.rows_ok n colbeg colend rowind ->
+  SchedInitTie.rlx_at rfcol rsize n 1 rlx -> PresetMapTie.rlx_ok n rlx -> (Z.to_nat n < fuel)%nat ->
+  PresetMapGen.gen_dPresetMap n colbeg colend rowind rfcol rsize colcnt sb nextlu maxsuper (Some off) junk k0 fuel =
+  Some (fst (preset_map_dyn n colbeg colend rowind rlx colcnt sb maxsuper),
+        snd (preset_map_dyn n colbeg colend rowind rlx colcnt sb maxsuper),
+        split_super n sb maxsuper, Consts.c_YES,
+        snd (preset_map_dyn n colbeg colend rowind rlx colcnt sb maxsuper)).
+Proof. exact PresetMapTie.presetmap_tie_dyn. Qed.
+Print Assumptions c05_source_presetmap_dyn_is_model.
+
+(* c05_check_slots_sound for the translated function: when the executable checker accepts the MODEL's image, the map_in_sup[]
+   that the translated C routine returns has non-decreasing slot starts *)
+Theorem c05_source_presetmap_slots_sound : forall n colbeg colend rowind rfcol rsize rlx colcnt sb nextlu maxsuper junk k0 fuel m nl sb' d tot,
+  0 <= n -> 1 <= maxsuper -> PresetMapTie.sb_ok n sb -> PresetMapTie.rows_ok n colbeg colend rowind ->
+  SchedInitTie.rlx_at rfcol rsize n 1 rlx -> PresetMapTie.rlx_ok n rlx -> (Z.to_nat n < fuel)%nat ->
+  check_slots n (fst (preset_map n colbeg colend rowind rlx colcnt sb maxsuper)) = true ->
+  PresetMapGen.gen_dPresetMap n colbeg colend rowind rfcol rsize colcnt sb nextlu maxsuper C2GalLib.pnull junk k0 fuel = Some (m, nl, sb', d, tot) ->
+  forall a b, 0 <= a <= b -> b < n -> 0 <= nthZ m a -> 0 <= nthZ m b -> 0 <= nthZ m a <= nthZ m b.
+Proof. exact PresetMapTie.presetmap_slots_sound. Qed.
+Print Assumptions c05_source_presetmap_slots_sound.
